@@ -1419,7 +1419,20 @@ def library_module(interp, name):
             raise OutOfReach("time.time()")
         return _mod("time", time=N("time.time", _time))
     if name == "datetime":
-        return _mod("datetime", datetime=IStub("datetime.datetime", "opaque"), timedelta=IStub("datetime.timedelta", "opaque"))
+        def timedelta(**kw):
+            axiom("datetime(1970,1,1) + timedelta(microseconds=n) raises OverflowError unless the result is within year 1..9999; "
+                  "otherwise the value is opaque (never inspected by a contract)")
+            st = IStub("datetime.timedelta", "opaque")
+            st.us = kw.get("microseconds", 0)
+            if set(kw) - {"microseconds"}:
+                raise OutOfReach("timedelta arguments other than microseconds")
+            if ops.is_sym(st.us):
+                if not ctx().branch(z3.And(T(st.us) <= 86399999999999999999, T(st.us) >= -86399999913600000000)):
+                    raise OverflowError("days out of range")
+            elif not (-86399999913600000000 <= st.us <= 86399999999999999999):
+                raise OverflowError("days out of range")
+            return st
+        return _mod("datetime", datetime=IStub("datetime.datetime", "opaque"), timedelta=N("datetime.timedelta", timedelta))
     if name == "string":
         import string
         return _mod("string", ascii_letters=string.ascii_letters, digits=string.digits, punctuation=string.punctuation)
